@@ -6,6 +6,7 @@ CONSTANTS
   MaxK = 2
   M = 4
   Eager = TRUE
+  AppLimited = FALSE
   Tier = "cubic"
   N <- RN
   Plus <- RPlus
